@@ -100,10 +100,20 @@ InitStyle     == c \in CasesStyle(ScopeOf("style"))
 InitStyleSeg  == c \in CasesStyleSeg(ScopeOf("styleseg"))
 InitTB        == c \in CasesTB(ScopeOf("tb"))
 InitAll == InitT \/ InitConcat \/ InitConcat3 \/ InitPartition \/ InitSplit \/ InitTrim \/ InitStyle \/ InitStyleSeg \/ InitTB
+\* TLC computes initial states with one thread; InitShards + NextShards enumerate the same cases as
+\* InitAll as successors of nine marker states, so that the workers share the work.
+ShardCases(i) == CASE i = 1 -> CasesT(ScopeOf("t"))               [] i = 2 -> CasesConcat(ScopeOf("concat"))
+                   [] i = 3 -> CasesConcat3(ScopeOf("concat3"))   [] i = 4 -> {cc \in CasesPartition(ScopeOf("partition")) : NearIx(cc)}
+                   [] i = 5 -> CasesSplit(ScopeOf("split"))       [] i = 6 -> CasesTrim(ScopeOf("trim"))
+                   [] i = 7 -> CasesStyle(ScopeOf("style"))       [] i = 8 -> CasesStyleSeg(ScopeOf("styleseg"))
+                   [] i = 9 -> CasesTB(ScopeOf("tb"))
+InitShards == c \in {[Case("shard") EXCEPT !.w = i] : i \in 1..9}
+NextShards == c.op = "shard" /\ c' \in ShardCases(c.w)
 Next == UNCHANGED c
 
 LawOK ==
-  CASE c.op = "t"         -> LawT(c.s, c.gs)
+  CASE c.op = "shard"     -> TRUE
+    [] c.op = "t"         -> LawT(c.s, c.gs)
     [] c.op = "concat"    -> LawConcat(c.ts)
     [] c.op = "partition" -> LawPartition(c.t, c.ix)
     [] c.op = "split"     -> LawSplit(c.t, IF c.r = 10 THEN CN ELSE CA)
@@ -115,5 +125,5 @@ LawOK ==
 \* the inputs are normal, and normality is exactly "equal to the canonical form"
 InputsOK == /\ (c.op # "styleseg" => Normal(c.t)) /\ AllNormal(c.ts)
             /\ NormalIsCanonical(c.t) /\ \A i \in 1..Len(c.ts) : NormalIsCanonical(c.ts[i])
-Emit == PrintT(ToJson([c |-> c, alts |-> SetToSeq(Accepted(c)), unspec |-> Unspec(c)]))
+Emit == c.op = "shard" \/ PrintT(ToJson([c |-> c, alts |-> SetToSeq(Accepted(c)), unspec |-> Unspec(c)]))
 =============================================================================
